@@ -1067,6 +1067,87 @@ pub fn xargs_main(args: &[&str]) -> i32 {
     }
 }
 
+/// Verification hook (off by default): run one of the two private argument
+/// readers over a caller-supplied sequence of `read()` results.
+#[cfg(feature = "verif_hooks")]
+pub mod verif {
+    use super::{
+        ArgumentKind, ArgumentReader, ByteDelimitedArgumentReader,
+        WhitespaceDelimitedArgumentReader,
+    };
+    use std::io::{self, Read};
+
+    /// A reader that returns the given chunks one `read()` at a time. A `None`
+    /// chunk makes that `read()` fail with `ErrorKind::Interrupted`.
+    struct ChunkedReader<'a> {
+        chunks: &'a [Option<&'a [u8]>],
+        next: usize,
+        offset: usize,
+    }
+
+    impl Read for ChunkedReader<'_> {
+        fn read(&mut self, buf: &mut [u8]) -> io::Result<usize> {
+            loop {
+                let Some(chunk) = self.chunks.get(self.next) else {
+                    return Ok(0);
+                };
+                let Some(chunk) = chunk else {
+                    self.next += 1;
+                    return Err(io::Error::from(io::ErrorKind::Interrupted));
+                };
+                let rest = &chunk[self.offset..];
+                if rest.is_empty() {
+                    // An empty chunk would look like EOF; skip it.
+                    self.next += 1;
+                    self.offset = 0;
+                    continue;
+                }
+                let n = rest.len().min(buf.len());
+                buf[..n].copy_from_slice(&rest[..n]);
+                self.offset += n;
+                if self.offset == chunk.len() {
+                    self.next += 1;
+                    self.offset = 0;
+                }
+                return Ok(n);
+            }
+        }
+    }
+
+    /// Split `chunks` into arguments exactly as `xargs` would: with the
+    /// whitespace/quote reader when `delimiter` is `None`, with the
+    /// byte-delimited reader otherwise. Each argument is returned with a flag
+    /// telling whether it was hard-terminated (ends an input line).
+    pub fn split(
+        delimiter: Option<u8>,
+        chunks: &[Option<&[u8]>],
+    ) -> Result<Vec<(Vec<u8>, bool)>, String> {
+        let rd = ChunkedReader {
+            chunks,
+            next: 0,
+            offset: 0,
+        };
+        let mut reader: Box<dyn ArgumentReader + '_> = match delimiter {
+            Some(d) => Box::new(ByteDelimitedArgumentReader::new(rd, d)),
+            None => Box::new(WhitespaceDelimitedArgumentReader::new(rd)),
+        };
+        let mut out = vec![];
+        loop {
+            match reader.next() {
+                Ok(Some(arg)) => {
+                    use std::os::unix::ffi::OsStrExt;
+                    out.push((
+                        arg.arg.as_bytes().to_vec(),
+                        arg.kind == ArgumentKind::HardTerminated,
+                    ));
+                }
+                Ok(None) => return Ok(out),
+                Err(e) => return Err(e.to_string()),
+            }
+        }
+    }
+}
+
 #[cfg(test)]
 mod tests {
     use super::*;
